@@ -27,6 +27,13 @@ fn fail(id: u32, what: &str) { println!("FAIL {} {}", id, what); unsafe { BAD +=
 fn ordered(k: usize) -> Vec<u32> { (0..k as u32).collect() }
 static mut COUNTER: u32 = 100;
 fn next() -> u32 { unsafe { COUNTER += 1; COUNTER } }
+// a value whose destructor is observable: element expressions of the form `(bump(i), rd()).1` leave a temporary behind that
+// lives until the end of the enclosing statement in a native array literal
+thread_local! { static BUMPS: std::cell::Cell<u32> = std::cell::Cell::new(0); }
+struct Bump(u32);
+impl Drop for Bump { fn drop(&mut self) { BUMPS.with(|b| b.set(b.get() + 1)); LOG.with(|l| l.borrow_mut().push(1000 + self.0)); } }
+fn bump(i: u32) -> Bump { LOG.with(|l| l.borrow_mut().push(i)); Bump(i) }
+fn rd() -> u32 { BUMPS.with(|b| b.get()) }
 '''
 
 
@@ -113,6 +120,54 @@ def build(tier, seed):
                 f"    let b = box_arr![{x}u32; {ty}];\n    if b.as_slice() != &native[..] {{ fail(@ID@, \"box_arr![x; <type expression>]\"); }}")
         iid[0] += 1
         items.append((iid[0], "repeat_type_expression", {"n": n, "type": ty}, decl.replace("@ID@", str(iid[0])), body.replace("@ID@", str(iid[0]))))
+    # element expressions that leave temporaries with destructors behind: values and the complete evaluation/drop log must be
+    # those of the native array literal with the same expressions
+    for k in [1, 2, 3, 4, 7]:
+        elems = ", ".join(f"(bump({i}), rd() + {i * 10}).1" for i in range(k))
+        body = (f"    let _ = take();\n    let native: [u32; {k}] = [{elems}];\n    let native_log = take();\n"
+                f"    let a: GenericArray<u32, U{k}> = arr![{elems}];\n    let log_a = take();\n"
+                f"    let base_a = a[0];\n    if a.iter().zip(native.iter()).any(|(x, y)| x - base_a != y - native[0]) {{ fail(@ID@, \"arr! with temporaries in the element expressions: values differ from the native literal\"); }}\n"
+                f"    if log_a != native_log {{ fail(@ID@, \"arr!: evaluation / temporary-drop log differs from the native literal\"); }}\n"
+                f"    let b: Box<GenericArray<u32, U{k}>> = box_arr![{elems}];\n    let log_b = take();\n"
+                f"    let base_b = b[0];\n    if b.iter().zip(native.iter()).any(|(x, y)| x - base_b != y - native[0]) {{ fail(@ID@, \"box_arr! with temporaries in the element expressions: values differ from the native literal\"); }}\n"
+                f"    if log_b != native_log {{ fail(@ID@, \"box_arr!: evaluation / temporary-drop log differs from the native literal\"); }}")
+        add("list_temporaries", {"count": k}, "", body)
+    # elements that need the expected type to flow into the element expressions (unsized coercions), as in a native literal
+    for k in [1, 2, 3]:
+        cl = ", ".join(f"Box::new(move |x| x + {i})" for i in range(k))
+        sl = ", ".join(f"&[{i}u8; {i + 1}]" for i in range(k))
+        body = (f"    let native: [Box<dyn Fn(u32) -> u32>; {k}] = [{cl}];\n"
+                f"    let a: GenericArray<Box<dyn Fn(u32) -> u32>, U{k}> = arr![{cl}];\n"
+                f"    let b: Box<GenericArray<Box<dyn Fn(u32) -> u32>, U{k}>> = box_arr![{cl}];\n"
+                f"    for i in 0..{k} {{ if a[i](5) != native[i](5) || b[i](5) != native[i](5) {{ fail(@ID@, \"coerced closure elements\"); }} }}\n"
+                f"    let ns: [&[u8]; {k}] = [{sl}];\n    let s: GenericArray<&[u8], U{k}> = arr![{sl}];\n    let bs: Box<GenericArray<&[u8], U{k}>> = box_arr![{sl}];\n"
+                f"    if s.as_slice() != &ns[..] || bs.as_slice() != &ns[..] {{ fail(@ID@, \"coerced slice elements\"); }}")
+        add("list_coerced", {"count": k}, "", body)
+    # macro hygiene: element expressions that mention the caller's own items. macro_rules! hygiene does not cover items, so a
+    # helper item inside the expansion with the same name would capture them
+    cnames = ["LEN", "N", "LENGTH", "INPUT_LENGTH", "SIZE", "COUNT", "CAP", "USIZE", "ARR", "VEC", "ARRAY", "LEN_", "INPUT", "OUT", "VALUE", "INIT", "ITEM", "ELEM"] + [chr(c) for c in range(ord("A"), ord("Z") + 1) if chr(c) != "N"]
+    fnames = ["len", "n", "f", "x", "helper", "transmute", "do_transmute", "from_array", "make", "build", "init", "value", "array", "arr_", "length", "convert", "cast", "inner", "go", "imp"]
+    rng.shuffle(cnames)
+    rng.shuffle(fnames)
+    groups = [cnames[i::6] for i in range(6)]
+    fgroups = [fnames[i::6] for i in range(6)]
+    for gi in range(6):
+        n = [3, 4, 5, 7, 9, 2][gi]
+        cs, fs = groups[gi], fgroups[gi]
+        decls = "".join(f"    const {c}: u32 = {700001 + 13 * j + 1000 * gi};\n" for j, c in enumerate(cs)) + "".join(f"    const fn {f}() -> u32 {{ {800001 + 17 * j + 1000 * gi} }}\n" for j, f in enumerate(fs))
+        expr = " ^ ".join(cs) + " ^ " + " ^ ".join(f"{f}()" for f in fs)
+        lst = ", ".join(f"{c} + {j}" for j, c in enumerate(cs)) + ", " + ", ".join(f"{f}() + {j}" for j, f in enumerate(fs))
+        cnt = len(cs) + len(fs)
+        body = (f"{decls}    let want: u32 = {expr};\n    let native = [want; {n}];\n    let nl: [u32; {cnt}] = [{lst}];\n"
+                f"    const K1: GenericArray<u32, U{n}> = arr![{expr}; U{n}];\n    const K2: GenericArray<u32, U{n}> = arr![{expr}; {n}];\n    const K3: GenericArray<u32, U{cnt}> = arr![{lst}];\n"
+                f"    let a1 = arr![{expr}; U{n}];\n    let a2 = arr![{expr}; {n}];\n    let a3 = arr![{lst}];\n"
+                f"    let b1 = box_arr![{expr}; U{n}];\n    let b2 = box_arr![{expr}; {n}];\n    let b3 = box_arr![{lst}];\n"
+                f"    let a4 = arr![{expr}; Sum<U{n}, U0>];\n    let b4 = box_arr![{expr}; Sum<U{n}, U0>];\n"
+                f"    for (w, g) in [(\"const arr![x; U<n>]\", K1.as_slice()), (\"const arr![x; n]\", K2.as_slice()), (\"arr![x; U<n>]\", a1.as_slice()), (\"arr![x; n]\", a2.as_slice()), (\"box_arr![x; U<n>]\", b1.as_slice()), (\"box_arr![x; n]\", b2.as_slice()), (\"arr![x; <type expression>]\", a4.as_slice()), (\"box_arr![x; <type expression>]\", b4.as_slice())] {{\n"
+                f"        if g != &native[..] {{ fail(@ID@, &format!(\"{{}}: an element expression that mentions the caller's own items does not have the value it has in [x; n]\", w)); }}\n    }}\n"
+                f"    for (w, g) in [(\"const arr![list]\", K3.as_slice()), (\"arr![list]\", a3.as_slice()), (\"box_arr![list]\", b3.as_slice())] {{\n"
+                f"        if g != &nl[..] {{ fail(@ID@, &format!(\"{{}}: element expressions that mention the caller's own items differ from the native literal\", w)); }}\n    }}")
+        add("hygiene_caller_items", {"n": n, "consts": cs, "fns": fs}, "", body)
     # repeat with a non-Copy but Clone element is only offered by box_arr!
     for n in [0, 1, 3, 17]:
         body = (f"    let b: Box<GenericArray<String, U{n}>> = box_arr![String::from(\"q\"); U{n}];\n"
@@ -147,71 +202,76 @@ def program(items):
 
 def run(root, pid, tier, seed):
     t0 = time.time()
-    lib = E.Lib(root)
     wd = E.workdir(root, pid)
     items = build(tier, seed)
     nchunks = 16
     chunks = [items[i::nchunks] for i in range(nchunks)]
-
-    def do(ci):
-        src = os.path.join(wd, f"macros_{ci}.rs")
-        exe = os.path.join(wd, f"macros_{ci}")
-        text, spans = program(chunks[ci])
-        open(src, "w").write(text)
-        rc, err = lib.rustc(src, exe)
-        if rc != 0:
-            return ("compile", ci, err, spans)
-        rc, out, err2 = E.run_exe(exe)
-        return ("run", ci, rc, out, err2)
-
-    results = E.pmap(do, range(nchunks))
-    bad = {}
     by_id = {it[0]: it for it in items}
-    for r in results:
-        if r[0] == "compile":
-            _, ci, err, spans = r
-            hit = False
-            for m in re.finditer(r"--> [^\n]*macros_%d\.rs:(\d+):" % ci, err):
-                ln = int(m.group(1))
-                for (a, b, i) in spans:
-                    if a <= ln <= b:
-                        first = err[max(0, err.rfind("error", 0, m.start())):m.start()].strip().splitlines()
-                        bad.setdefault(i, "does not compile: " + (first[0] if first else "error"))
-                        hit = True
-                if not hit:
-                    # a const item at top level
-                    mm = re.search(r"const [CRS]_(\d+)", err[m.start():m.start() + 600])
-                    if mm:
-                        bad.setdefault(int(mm.group(1)), "const item does not compile")
-                        hit = True
-            if not hit:
-                print(err[-2500:])
-                print(f"INFRA: macro program {ci} does not compile and the error could not be attributed")
-                return None
-        else:
-            _, ci, rc, out, err2 = r
-            if "DONE bad=" not in out:
-                print(out[-1000:], err2[-1000:])
-                print(f"INFRA: macro program {ci} did not finish (rc={rc})")
-                return None
-            for line in out.splitlines():
-                if line.startswith("FAIL "):
-                    parts = line.split(" ", 2)
-                    bad.setdefault(int(parts[1]), parts[2])
     failures = []
-    for i, why in list(bad.items())[:10]:
-        it = by_id[i]
-        text, _ = program([it])
-        path = E.save_replay(root, pid, it[1], f"// C20 item kind={it[1]} params={it[2]}\n// expect: accept\n" + text)
-        failures.append({"msg": f"{it[1]} {it[2]}: {why}", "replay": path})
+    # dev profile (debug assertions on) and release profile (off): the macros expand to calls of library functions
+    for cfg in (None, E.RELEASE_FULL):
+        lib = E.Lib(root, cfg)
+        tag = "" if cfg is None else "_" + cfg[0]
+        label = "" if cfg is None else "[crate built in the release profile, debug assertions off] "
+
+        def do(ci):
+            src = os.path.join(wd, f"macros{tag}_{ci}.rs")
+            exe = os.path.join(wd, f"macros{tag}_{ci}")
+            text, spans = program(chunks[ci])
+            open(src, "w").write(text)
+            rc, err = lib.rustc(src, exe)
+            if rc != 0:
+                return ("compile", ci, err, spans)
+            rc, out, err2 = E.run_exe(exe)
+            return ("run", ci, rc, out, err2)
+
+        results = E.pmap(do, range(nchunks))
+        bad = {}
+        for r in results:
+            if r[0] == "compile":
+                _, ci, err, spans = r
+                hit = False
+                for m in re.finditer(r"--> [^\n]*macros%s_%d\.rs:(\d+):" % (tag, ci), err):
+                    ln = int(m.group(1))
+                    for (a, b, i) in spans:
+                        if a <= ln <= b:
+                            first = err[max(0, err.rfind("error", 0, m.start())):m.start()].strip().splitlines()
+                            bad.setdefault(i, "does not compile: " + (first[0] if first else "error"))
+                            hit = True
+                    if not hit:
+                        # a const item at top level
+                        mm = re.search(r"const [CRS]_(\d+)", err[m.start():m.start() + 600])
+                        if mm:
+                            bad.setdefault(int(mm.group(1)), "const item does not compile")
+                            hit = True
+                if not hit:
+                    print(err[-2500:])
+                    print(f"INFRA: macro program {ci} does not compile and the error could not be attributed")
+                    return None
+            else:
+                _, ci, rc, out, err2 = r
+                if "DONE bad=" not in out:
+                    print(out[-1000:], err2[-1000:])
+                    print(f"INFRA: macro program {ci} did not finish (rc={rc})")
+                    return None
+                for line in out.splitlines():
+                    if line.startswith("FAIL "):
+                        parts = line.split(" ", 2)
+                        bad.setdefault(int(parts[1]), parts[2])
+        hdr = "" if cfg is None else "// configuration: release_full\n"
+        for i, why in list(bad.items())[:10]:
+            it = by_id[i]
+            text, _ = program([it])
+            path = E.save_replay(root, pid, it[1], f"{hdr}// C20 item kind={it[1]} params={it[2]}\n// expect: accept\n" + text)
+            failures.append({"msg": f"{label}{it[1]} {it[2]}: {why}", "replay": path})
     classes = {}
     for it in items:
         classes[it[1]] = classes.get(it[1], 0) + 1
     nontrivial = {(it[1], str(it[2])) for it in items if it[2].get("count", it[2].get("n", 0)) >= 2}
     samples = [{"kind": it[1], "params": it[2], "body": it[4][:300]} for it in (items[2], items[40], items[-6], items[-1])]
     return E.evidence(
-        pid, tier, seed, "exploration", len(items), len(nontrivial),
-        "generated invocations: list form with every element count 0..=64 plus 100, 128, 255, 256 (with and without trailing comma, including arr![] and arr![, ]) whose element expressions log their evaluation; non-Copy (String) list form; const-position list form; both repeat forms arr![x; U<n>] and arr![x; n] over 20 lengths up to 1024 in const and let position, with pure, logging and impure x; box_arr! with the same arguments; list forms whose elements move non-Copy locals; repeat forms whose length is a type-level expression (Add1, Sum, Prod) in const and let position; box_arr! repeat with a Clone-only element. "
+        pid, tier, seed, "exploration", 2 * len(items), len(nontrivial),
+        "generated invocations: list form with every element count 0..=64 plus 100, 128, 255, 256 (with and without trailing comma, including arr![] and arr![, ]) whose element expressions log their evaluation; non-Copy (String) list form; const-position list form; both repeat forms arr![x; U<n>] and arr![x; n] over 20 lengths up to 1024 in const and let position, with pure, logging and impure x; box_arr! with the same arguments; list forms whose elements move non-Copy locals; repeat forms whose length is a type-level expression (Add1, Sum, Prod) in const and let position; box_arr! repeat with a Clone-only element; list forms whose element expressions leave temporaries with observable destructors behind (values and the complete evaluation/drop log must be those of the native literal); list forms whose elements need the expected type (Box<dyn Fn>, &[u8]) to flow into the expressions; element expressions that mention items of the caller under ~60 plausible names (LEN, N, T, len(), transmute() ...; macro_rules! hygiene does not cover items) in all forms and positions. Every program is compiled against the crate built in the dev and in the release profile. "
         "Oracle: the result coerces to an explicitly written GenericArray<_, U{k}> (so the inferred length is right) and N::USIZE = k, equals the native array literal with the same expressions, the evaluation log is exactly 0..k once each left to right; repeat forms equal [x; n] and evaluate x as [x; n] / vec![x; n] do; *box_arr![..] == arr![..]. "
         "non-trivial = invocations with at least two elements; distinct = distinct (kind, parameters)",
         samples, classes, exhaustive=False, assumptions=["a bare named const as repeat length is parsed as a type by the macro and is outside the documented forms"],
@@ -219,7 +279,7 @@ def run(root, pid, tier, seed):
 
 
 def replay(root, pid, path):
-    lib = E.Lib(root)
+    lib = E.Lib(root, E.RELEASE_FULL if open(path).read().startswith("// configuration: release_full") else None)
     exe = os.path.join(E.workdir(root, pid), "replay_exe")
     rc, err = lib.rustc(path, exe)
     ok = rc == 0
